@@ -12,7 +12,24 @@ use serde_json::{Value, json};
 
 const BRUTE_MAX: usize = 7; // must equal BruteMax in Trace_C02.tla / Trace_C09.tla
 
+/// Build the matrix with the given ones. A matrix is a SET of positions: the history of insert() calls (and so the
+/// order of the adjacency lists) must not matter, therefore two thirds of the matrices are built in a shuffled
+/// order derived from their content, the rest in row-major order.
 pub fn sparse_from_rows(rows: &[Vec<usize>], n: usize) -> SparseMatrix {
+    let mut entries: Vec<(usize, usize)> = rows.iter().enumerate().flat_map(|(r, cs)| cs.iter().map(move |&c| (r, c))).collect();
+    let salt = entries.iter().fold(n as u64 * 1315423911 + rows.len() as u64, |a, &(r, c)| a.rotate_left(7) ^ ((r as u64) << 20 | c as u64).wrapping_mul(0x9E3779B97F4A7C15));
+    if salt % 3 != 0 {
+        Rng::new(salt).shuffle(&mut entries);
+    }
+    let mut h = SparseMatrix::new(rows.len(), n);
+    for (r, c) in entries {
+        h.insert(r, c);
+    }
+    h
+}
+
+/// row-major insertion (used where a second, explicitly different history is wanted)
+pub fn sparse_row_major(rows: &[Vec<usize>], n: usize) -> SparseMatrix {
     let mut h = SparseMatrix::new(rows.len(), n);
     for (j, r) in rows.iter().enumerate() {
         for &c in r {
